@@ -147,8 +147,12 @@ def rule_b(ctx: Ctx) -> None:
 def _atoms():
     return [
         ('url_none', lambda e: text(e) == 'url is None'),
-        ('is_local', lambda e: text(e) == 'is_local_url(url)'),
+        ('is_local', lambda e: text(e) in ('is_local_url(url)', 'is_local_scheme(urlsplit(url).scheme)')),
         ('is_remote', lambda e: text(e) == 'is_remote_url(url)'),
+        # a locality predicate applied to something else than the URL being checked (cached scheme, self.url, base_url …) is an
+        # atom of its own: the decision is then not a function of the checked location
+        ('locality_of_something_else', lambda e: isinstance(e, ast.Call) and text(e.func) in ('is_local_url', 'is_remote_url', 'is_local_scheme')
+         and not any(isinstance(x, ast.Name) and x.id == 'url' for a in e.args for x in ast.walk(a))),
         ('has_base', lambda e: text(e) in ('self._base_url is not None', 'self._base_url')),
         ('contained', lambda e: isinstance(e, ast.Call) and isinstance(e.func, ast.Attribute) and
          ((e.func.attr == 'startswith' and text(e.func.value) == 'url') or e.func.attr in ('is_relative_to',))),
